@@ -1245,10 +1245,18 @@ class TaskPool:
         return not any(
             (
                 stop_mode in [StopMode.REQUEST_CLEAN, StopMode.REQUEST_KILL]
-                and itask.state(*TASK_STATUSES_ACTIVE)
+                and (
+                    itask.state(*TASK_STATUSES_ACTIVE)
+                    # job submission command under way: this task is about
+                    # to become active
+                    or (
+                        itask.state(TASK_STATUS_PREPARING)
+                        and not itask.waiting_on_job_prep
+                    )
+                )
                 and not itask.state.kill_failed
             )
-            # preparing tasks get reset to waiting on restart
+            # other preparing tasks get reset to waiting on restart
             for itask in self.get_tasks()
         )
 
